@@ -17,12 +17,12 @@ def mc(cfg, note, timeout=3000):
     return {"module": cfg, "cfg": cfg, "note": note, "timeout": timeout}
 
 
-def sim(cfg, num, depth, isolate=False, salt=0):
-    return {"module": cfg, "cfg": cfg, "num": num, "depth": depth, "isolate": isolate, "salt": salt}
+def sim(cfg, num, depth, isolate=False, salt=0, rig=None):
+    return {"module": cfg, "cfg": cfg, "num": num, "depth": depth, "isolate": isolate, "salt": salt, "rig": rig or {}}
 
 
-def scen(cfg, file, isolate=False, gaps=False):
-    return {"module": cfg, "cfg": cfg, "file": file, "isolate": isolate, "gaps": gaps}
+def scen(cfg, file, isolate=False, gaps=False, rig=None):
+    return {"module": cfg, "cfg": cfg, "file": file, "isolate": isolate, "gaps": gaps, "rig": rig or {}}
 
 
 FAMILIES = {
@@ -96,8 +96,11 @@ FAMILIES["rm"] = {
     "driver": "core", "monitor": "MonTrace",
     "exhaustive": {"quick": [mc("MCRmQ", "1 vBucket, 2 copies, seqnos <=2, reports (uuid 1|2, seq 0..2) in any order, absent replica, Close()")],
                    "thorough": [mc("MCRm", "1 vBucket, 3 copies, seqnos <=3, reports in any order, absent replicas, 1 ack, Close()", 5000)]},
-    "simulate": {"quick": [sim("SimRm", 60, 50), sim("SimRm2", 80, 44)], "thorough": [sim("SimRm", 1200, 60), sim("SimRm2", 1500, 50)]},
-    "scenarios": [scen("WitReplayRm", "wit_rm.ndjson")],
+    # the same behaviours on the emulated replica table and (rig RmReal) on the REAL polling rollbackMitigation over a simulated cluster
+    "simulate": {"quick": [sim("SimRm", 60, 50), sim("SimRm2", 80, 44), sim("SimRm2M", 30, 44, isolate=True, salt=5, rig={"RmReal": True}), sim("SimRmM", 15, 50, isolate=True, salt=6, rig={"RmReal": True})],
+                 "thorough": [sim("SimRm", 1200, 60), sim("SimRm2", 1500, 50), sim("SimRmM", 150, 60, isolate=True, salt=5, rig={"RmReal": True}),
+                              sim("SimRm2M", 300, 50, isolate=True, salt=6, rig={"RmReal": True})]},
+    "scenarios": [scen("WitReplayRm", "wit_rm.ndjson"), dict(scen("WitReplayRmM", "wit_rm.ndjson", isolate=True, rig={"RmReal": True}), allow_partial=True)],
 }
 
 FAMILIES["ro"] = {
